@@ -29,6 +29,8 @@ def configs(tier, seed):
                 variants = ["", "nonorth", "complex", "complex_orth"]
             if kind in ("uhf", "uhf_cpmc"):
                 variants = ["same", "", "nonorth"] + (["complex_same", "complex", "complex_orth"] if kind == "uhf" else [])
+            if kind in ("UCISD", "ucisd"):
+                variants = ["", "nonorth"]  # non-orthonormal beta orbital basis (overlap statement only)
             if kind == "noci":
                 variants = (["", "3det", "nonorth"] if thorough else ["", "nonorth"]) + ["complex", "complex_orth"]
             if kind == "multislater":
